@@ -283,6 +283,69 @@ fn long_inputs(d: &FmtDesc) -> Vec<Vec<u8>> {
     v
 }
 
+fn radix_str(mut n: u64, radix: u32) -> Vec<u8> {
+    let mut v = Vec::new();
+    loop {
+        v.push(vkit::big::digit_char((n % radix as u64) as u32));
+        n /= radix as u64;
+        if n == 0 {
+            break;
+        }
+    }
+    v.reverse();
+    v
+}
+
+/// MAG: a few mantissa shapes x every exponent in a window wider than the float range, so every
+/// table index, bias window and underflow/overflow cut-off of the float algorithms is visited.
+fn magnitude_inputs(d: &FmtDesc, thorough: bool) -> Vec<Vec<u8>> {
+    let r = d.mantissa_radix;
+    let ec: &[u8] = if r >= 15 { b"^" } else { b"e" };
+    let m = vkit::big::digit_char(r - 1);
+    let mants: Vec<Vec<u8>> = vec![
+        b"1".to_vec(),
+        vec![m],
+        b"1.0".to_vec(),
+        vec![b'1', m, b'0', b'.', b'0', m, b'1'],
+        vec![m; 19],
+        vec![m; 25],
+        [b"0.".to_vec(), vec![b'0'; 30], vec![b'1']].concat(),
+        [vec![b'1'], vec![b'0'; 30], b".0".to_vec()].concat(),
+        [vec![b'1'; 70], b".".to_vec(), vec![m; 70]].concat(),
+    ];
+    // exponent window in units of the exponent base: beyond 2^+-1200 for every base
+    let per = (d.exponent_base as f64).log2();
+    let emax = (1250.0 / per) as i64 + 40;
+    let step = if thorough { 1 } else { 1 };
+    let mut v = Vec::new();
+    for mant in &mants {
+        let mut e = -emax;
+        while e <= emax {
+            let mut s = mant.clone();
+            s.extend_from_slice(ec);
+            if e < 0 {
+                s.push(b'-');
+            }
+            s.extend_from_slice(&radix_str(e.unsigned_abs(), d.exponent_radix));
+            v.push(s);
+            e += step;
+        }
+    }
+    // exponents near the i32/i64 limits of the exponent accumulator
+    for e in [i32::MAX as u64 - 1, i32::MAX as u64, i32::MAX as u64 + 1, u32::MAX as u64, i64::MAX as u64, u64::MAX] {
+        for sign in [&b""[..], b"-", b"+"] {
+            for mant in [&mants[0], &mants[4], &mants[6]] {
+                let mut s = mant.clone();
+                s.extend_from_slice(ec);
+                s.extend_from_slice(sign);
+                s.extend_from_slice(&radix_str(e, d.exponent_radix));
+                v.push(s);
+            }
+        }
+    }
+    v
+}
+
 fn run(rep: &Report, cli: &Cli, c11: bool) {
     let thorough = cli.tier == "thorough";
     let prop = if c11 { "C11" } else { "C10" };
@@ -335,6 +398,13 @@ fn run(rep: &Report, cli: &Cli, c11: bool) {
             c.check_fmt(f, &s);
         }
         c.done();
+        if matches!(f.group, "STD" | "RADIX") {
+            let mut c = Ck::new(c11, rep, &format!("{prop}:MAG"), tid, f.desc.mantissa_radix);
+            for s in magnitude_inputs(&f.desc, thorough) {
+                c.check_fmt(f, &s);
+            }
+            c.done();
+        }
     });
     rep.note(format!("formats={} depth={} bytes_len<={}", cat.len(), depth, blen));
 }
